@@ -7,10 +7,10 @@ Scanner, MapScan, SliceMap, the iterator built by executeQuery). Specification: 
 `Model/RowDataSpec.lean`: which types have a Go type, RowData's names.
 Helper lemmas: `Proofs/C04Prim|Types|Meta|Frames|Resp|Wire|Rows|Maps.lean`.
 The models describe the code AFTER the repairs of KF-C04-1 (readTypeInfo), KF-C04-2 (iterScanner.Scan),
-KF-C04-4 (goType), KF-C04-5 (executeQuery); KF-C04-3 (nil destination on a tuple column) is open.
+KF-C04-4 (goType), KF-C04-5 (executeQuery), KF-C04-7 (unmarshalUDT: a short UDT value into a reused struct);
+KF-C04-3 (nil destination on a tuple column) is open.
 `Model/RowsReuse.lean`: typed destinations reused across the rows of a page (section 7; helper lemmas in
-`Proofs/C04Reuse.lean`); KF-C04-6 (an empty cell into a reused `[]byte`) and KF-C04-7 (a short UDT value into a
-reused struct) are open.
+`Proofs/C04Reuse.lean`); KF-C04-6 (an empty cell into a reused `[]byte`) is open.
 -/
 import Proofs.C04Wire
 import Proofs.C04Rows
@@ -465,8 +465,8 @@ example :
 /-! ## 7. typed destinations REUSED across the rows of a page: every row is what its own cells say -/
 
 open RowsReuse Marshal in
-/-- FULL PROPERTY (does not hold, see `C04_cex_empty_cell_depends_on_history` and
-    `C04_cex_udt_struct_keeps_stale_field`): as below without the hypothesis `hins`.
+/-- FULL PROPERTY (does not hold, see `C04_cex_empty_cell_depends_on_history`: KF-C04-6, open): as below without the
+    hypothesis `hins`.
 
     A well-formed page is read with the ordinary loop `for iter.Scan(&x0, …, &xk) { … }` — the SAME typed Go
     destinations (Go types `tys`, one per destination slot; tuple columns expand) on every call — and the
@@ -476,12 +476,16 @@ open RowsReuse Marshal in
     earlier rows contained: null after a value is nil / the zero value, a shorter value after a longer one is the
     shorter value, a value after null is the value. The first row with a cell that does not decode into its
     destination's type ends the loop: Scan returns false, iter.err is set, the row is not counted.
-    `hins`: no cell falls under the excluded condition `sensitive` (C04Reuse.lean): an EMPTY cell of a text-family
-    column into an unnamed `[]byte` (KF-C04-6); a non-empty UDT value into a struct when its fields do NOT write every
-    field of the struct (fewer fields than the type, a struct field the type does not name: KF-C04-7) or a written
-    field is itself excluded; a list / set into `*[n]T` whose element type can be excluded (`[n][]byte` of a
-    text-family element, nested `[n]T` / structs); `[n]T` / structs on other column types. A struct whose every field
-    is written and a `*[n]T` of stateless elements ARE inside the claim. -/
+    `hins`: no cell falls under the excluded condition `sensitive` (C04Reuse.lean). The only FINDING in it is
+    KF-C04-6: an EMPTY cell of a text-family column into an unnamed `[]byte` — as a destination, as an element of
+    `*[n][]byte`, as a field of a struct. The rest of the condition is the part of the (column type, Go type) space
+    the claim is not made for: a struct for a UDT column that has a field NO field of the column's type names (the
+    application's own field: a non-empty value never touches it, a fresh struct has it zero) or whose type names one
+    struct field twice; nested in-place composites (`[n]T` / structs inside `[n]T` / structs); `[n]T` / structs on
+    other column types. With the repair of KF-C04-7 (unmarshalUDT resets the fields a value does not carry) a UDT
+    value with FEWER fields than the type into a reused struct is INSIDE the claim
+    (`C04_fixed_udt_struct_resets_missing_fields`, `C04_struct_excluded_exactly`), as are a struct whose every field
+    is written and a `*[n]T` of stateless elements. -/
 theorem C04_rows_independent_partial (p : Nat) (m : Meta) (rs : List (List Cell)) (tys : List GoTy) (vals0 : List GoVal)
     (hcols : ∀ n g, m.cols ≠ .omitted n g) (hw : wfRows (colTypes m.cols) rs = true)
     (hW : totalWidth (colTypes m.cols) = tys.length) (hv : vals0.length = tys.length)
@@ -631,16 +635,19 @@ def cexUdtFull : FrameRead.Bytes := [0, 0, 0, 4, 0, 0, 0, 1, 0, 0, 0, 1, 0x78]
 def cexUdtShort : FrameRead.Bytes := [0, 0, 0, 4, 0, 0, 0, 5]
 
 open RowsReuse Marshal in
-/-- KF-C04-7 (OPEN): a UDT value with fewer fields than the type, unmarshalled into a struct that still holds the
-    previous row's value, keeps the previous row's `b` ("x") — decoded on its own it is (5, ""): unmarshalUDT returns
-    when the value's data is used up and leaves the remaining fields of the struct alone. -/
-theorem C04_cex_udt_struct_keeps_stale_field :
+/-- KF-C04-7 repaired: a UDT value with fewer fields than the type, unmarshalled into a struct that still holds the
+    previous row's value (1, "x"), resets the missing field `b`: the struct holds (5, "") — what the value decodes to
+    on its own; and so for EVERY value `prev` the struct may hold (the short value is outside the excluded condition:
+    `C04_rows_independent_partial` covers the page (a=1, b="x"), (a=5) read with `var u T; for iter.Scan(&u)`). -/
+theorem C04_fixed_udt_struct_resets_missing_fields :
     unmarshalFresh 4 (some cexUdt) cexUdtStruct (some cexUdtFull)
       = .ok (.udtstruct ["a", "b"] [.int .int false 1, .str false [0x78]]) ∧
     unmarshalFresh 4 (some cexUdt) cexUdtStruct (some cexUdtShort)
       = .ok (.udtstruct ["a", "b"] [.int .int false 5, .str false []]) ∧
     unmarshalInto 4 (some cexUdt) cexUdtStruct (some cexUdtShort) (.udtstruct ["a", "b"] [.int .int false 1, .str false [0x78]])
-      = .ok (.udtstruct ["a", "b"] [.int .int false 5, .str false [0x78]]) := by
+      = .ok (.udtstruct ["a", "b"] [.int .int false 5, .str false []]) ∧
+    (∀ prev, unmarshalInto 4 (some cexUdt) cexUdtStruct (some cexUdtShort) prev
+      = unmarshalFresh 4 (some cexUdt) cexUdtStruct (some cexUdtShort)) := by
   have d5 : decInt [0, 0, 0, 5] = 5 := by decide
   have d1 : decInt [0, 0, 0, 1] = 1 := by decide
   have us_int : ∀ (isNil : Bool) (d : FrameRead.Bytes),
@@ -652,28 +659,67 @@ theorem C04_cex_udt_struct_keeps_stale_field :
   have r1 : readBytesM [0, 0, 0, 4, 0, 0, 0, 5] = some (some [0, 0, 0, 5], []) := by decide
   have r2 : readBytesM cexUdtFull = some (some [0, 0, 0, 1], [0, 0, 0, 1, 0x78]) := by decide
   have r3 : readBytesM [0, 0, 0, 1, 0x78] = some (some [0x78], []) := by decide
-  have b5 : unmarshalBase 4 .int (.int .int false) (some [0, 0, 0, 5]) = .ok (.int .int false 5) := by
-    simp [unmarshalBase, us_int, dataBytes, d5]
-  refine ⟨?_, ?_, ?_⟩
+  have b5 : ∀ prev, intoBase 4 .int (.int .int false) (some [0, 0, 0, 5]) prev = .ok (.int .int false 5) := by
+    intro prev
+    simp [intoBase, unmarshalBase, us_int, dataBytes, d5]
+  have hshort : unmarshalFresh 4 (some cexUdt) cexUdtStruct (some cexUdtShort)
+      = .ok (.udtstruct ["a", "b"] [.int .int false 5, .str false []]) := by
+    simp [unmarshalFresh, unmarshal, withPtr, stripPtr, cexUdt, cexUdtStruct, cexUdtShort, unmarshalBase, dataBytes,
+      unmarshalUdtStruct, zeroOf, zeroOfs, ValueSpec.shorter, r1, l1, us_int, d5]
+  have hsens : sensitive (some cexUdt) cexUdtStruct (some cexUdtShort) = false := by decide
+  refine ⟨?_, hshort, ?_, ?_⟩
   · simp [unmarshalFresh, unmarshal, withPtr, stripPtr, cexUdt, cexUdtStruct, unmarshalBase, dataBytes, unmarshalUdtStruct,
       zeroOf, zeroOfs, ValueSpec.shorter, r2, r3, l1, l2, us_int, us_vc, d1]
     simp [cexUdtFull, ValueSpec.shorter]
-  · simp [unmarshalFresh, unmarshal, withPtr, stripPtr, cexUdt, cexUdtStruct, cexUdtShort, unmarshalBase, dataBytes,
-      unmarshalUdtStruct, zeroOf, zeroOfs, ValueSpec.shorter, r1, l1, us_int, d5]
-  · simp [unmarshalInto, cexUdt, cexUdtStruct, cexUdtShort, intoBase, dataBytes, udtInto, partsOf, fit, ValueSpec.shorter, r1, l1, b5]
+  · rw [unmarshalInto_fresh 4 (some cexUdt) cexUdtStruct (some cexUdtShort) _ hsens, hshort]
+  · intro prev
+    exact unmarshalInto_fresh 4 (some cexUdt) cexUdtStruct (some cexUdtShort) prev hsens
 
 open RowsReuse Marshal in
-/-- the excluded condition on structs is exactly "some field of the struct is not written": the full value (a, b) into
-    the struct {a, b} is INSIDE `C04_rows_independent_partial` (whatever the struct held), the short value (a) of
-    KF-C04-7 is outside; a null value resets the struct and is inside; `*[3]int` for a list<int> column is inside,
-    `*[3][]byte` for a list<blob> column is outside (an empty element: KF-C04-6) -/
+/-- regression about the OLD definition (unmarshalUDT before the repair of KF-C04-7 returned as soon as the value's
+    data was used up): the short value (a = 5) into the struct that holds (1, "x") kept the previous row's "x" -/
+def udtIntoOld (p : Nat) : List String → List ValueSpec.CqlTy → List String → List GoTy → FrameRead.Bytes → List GoVal → LRes (List GoVal)
+  | name :: names, t :: ts, fnames, gs, data, acc =>
+    if data = [] then .ok acc data
+    else if ValueSpec.shorter data 4 then .err
+    else (match readBytesM data with
+     | none => .err
+     | some (item, r) =>
+       (match lookupIdx name fnames 0 with
+        | none => udtIntoOld p names ts fnames gs r acc
+        | some i => (match gs[i]? with
+          | none => udtIntoOld p names ts fnames gs r acc
+          | some g => (match intoBase p t g item (acc.getD i .nil) with
+            | .ok v => udtIntoOld p names ts fnames gs r (acc.set i v)
+            | .err => .err | .crash => .crash | .unmodelled => .unmodelled))))
+  | _, _, _, _, data, acc => .ok acc data
+
+open RowsReuse Marshal in
+example : udtIntoOld 4 ["a", "b"] [.int, .varchar] ["a", "b"] [.int .int false, .str false] cexUdtShort
+      [.int .int false 1, .str false [0x78]] = .ok [.int .int false 5, .str false [0x78]] [] := by
+  have d5 : decInt [0, 0, 0, 5] = 5 := by decide
+  have us_int : ∀ (isNil : Bool) (d : FrameRead.Bytes),
+      unmarshalScalar .int isNil d (.int .int false) = .ok (.int .int false (decInt d)) := fun _ _ => rfl
+  have l1 : lookupIdx "a" ["a", "b"] 0 = some 0 := by decide
+  have r1 : readBytesM [0, 0, 0, 4, 0, 0, 0, 5] = some (some [0, 0, 0, 5], []) := by decide
+  simp [udtIntoOld, cexUdtShort, ValueSpec.shorter, r1, l1, intoBase, unmarshalBase, us_int, dataBytes, d5]
+
+open RowsReuse Marshal in
+/-- the excluded condition on structs is exactly "some field of the struct is neither written nor reset": the full
+    value (a, b) into the struct {a, b} is INSIDE `C04_rows_independent_partial` (whatever the struct held), and —
+    with the repair of KF-C04-7 — so is the short value (a): `b` is reset; a null value resets the struct and is
+    inside; the struct {a, zz} — `zz` is not a field of the type — is outside for a non-empty value (nothing writes
+    `zz`) and inside for null; `*[3]int` for a list<int> column is inside, `*[3][]byte` for a list<blob> column is
+    outside (an empty element: KF-C04-6) -/
 theorem C04_struct_excluded_exactly :
     sensitive (some cexUdt) cexUdtStruct (some cexUdtFull) = false ∧
-    sensitive (some cexUdt) cexUdtStruct (some cexUdtShort) = true ∧
+    sensitive (some cexUdt) cexUdtStruct (some cexUdtShort) = false ∧
     sensitive (some cexUdt) cexUdtStruct none = false ∧
+    sensitive (some cexUdt) (.udtstruct ["a", "zz"] [.int .int false, .str false]) (some cexUdtShort) = true ∧
+    sensitive (some cexUdt) (.udtstruct ["a", "zz"] [.int .int false, .str false]) none = false ∧
     (∀ d, sensitive (some (.list .int)) (.array 3 (.int .int false)) d = false) ∧
     (∀ d, sensitive (some (.list .blob)) (.array 3 (.bytes false)) d = true) := by
-  refine ⟨by decide, by decide, by decide, fun _ => rfl, fun _ => rfl⟩
+  refine ⟨by decide, by decide, by decide, by decide, by decide, fun _ => rfl, fun _ => rfl⟩
 
 /-! ## 6. non-vacuity -/
 
